@@ -267,8 +267,13 @@ def cycles_scenario(rng, method):
     cleanup = ([f"?unreg f{i}" for i in range(g.nf)] + [f"?tunreg t{i}" for i in range(g.nt)] + ["?tunreg t63"] +
                [f"?kunreg k{i}" for i in range(1, g.nk + 1)] + [f"?evunreg e{i}" for i in range(g.ne)] +
                [f"?rawunreg r{i}" for i in range(1, g.nr + 1)])
+    burst = rng.choice([0, 0, 130, 200])
+    if burst:
+        cleanup.append(f"tburstoff 64 {64 + burst}")
     for rnd in range(rng.choice([3, 4, 5])):
         acts = [f"trel t63 {rng.choice([20000000, 60000000])}"]
+        if burst and rnd != 1:
+            acts.append(f"tburst 64 {64 + burst}")
         for i in range(g.nf): acts.append(f"?reg f{i} {rng.choice(['100', '110', '111', '010'])}")
         for i in range(g.nt): acts.append(f"?trel t{i} {rng.choice([1000000, 5000000, 900000000, 3000000000])}")
         for i in range(1, g.nk + 1): acts.append(f"?kreg k{i}")
